@@ -8,6 +8,8 @@ package respondent
 //@   immutable: s p sendQ closeQ
 //@
 //@ struct socket
+//@   close_token closeQ when closed
+//@   close_token sizeQ
 //@   lock Mutex level 20
 //@   guarded_by Mutex: closed ttl sendQLen recvQLen sizeQ recvQ contexts
 //@   immutable: defCtx closeQ
@@ -15,6 +17,7 @@ package respondent
 //@   elem_invariant recvQ: !shared(elem.m) && elem.m != nil && elem.p != nil
 //@
 //@ struct context
+//@   close_token closeQ when closed
 //@   guarded_by s.Mutex: closed recvExpire sendExpire bestEffort recvPipe backtrace
 //@   immutable: s closeQ
 //@
@@ -118,3 +121,6 @@ package respondent
 //@
 //@ func (*socket).AddPipe
 //@   before call:SetPrivate#1 assert cap(p.sendQ) == s.sendQLen
+//@
+//@ func (*socket).RemovePipe
+//@   may_close p.closeQ caller
